@@ -288,6 +288,48 @@ def run_timeout(rep, prog):
     return npaths
 
 
+def run_epoch(rep, prog):
+    """P7: _dispatch_time_nanoseconds_since_epoch (absolute deadline handed to sem_timedwait): FOREVER -> FOREVER; a wall time is its own
+    nanosecond count (-when); an uptime / monotonic time is wall-now + _dispatch_timeout(when). In particular a monotonic time (bit 63 set, bit 62
+    clear) must NOT be decoded as a wall time, or an elapsed monotonic deadline blocks (practically) forever."""
+    fn = prog.fn("_dispatch_time_nanoseconds_since_epoch")
+    rep.saw(fn)
+    r = rep.rule("C12-P7", "_dispatch_time_nanoseconds_since_epoch: FOREVER->FOREVER, wall -> -when, uptime/monotonic -> wall-now + _dispatch_timeout(when) "
+                 "(each of the three clocks is decoded as itself; a past time never becomes a far-future deadline)", floor=8)
+    calls = dict(CALLS)
+    calls["_dispatch_timeout"] = (0, NOWMAX)
+    tcalls = [c for c in fn.all_insts() if c.op == "call" and c.callee == "_dispatch_timeout"]
+    rep.require(r, len(tcalls) == 1 and list(tcalls[0].ops[0][:2]) == ["a", 0], fn.file, fn.name, "epoch/timeout-arg",
+                "_dispatch_time_nanoseconds_since_epoch must derive the relative part from _dispatch_timeout(when) of its own argument", sample={"calls": len(tcalls)})
+    npaths = 0
+    where = fn.file + ":" + str(fn.d.get("line"))
+    for (cname, lo, hi, clock, kind, vlin) in TIME_CLASSES:
+        itp = Interp(fn, {0: ("I", lo, hi)}, calls=calls)
+        for st, retop in itp.run():
+            npaths += 1
+            R = itp.val(st, retop)
+            path = "bb" + ">".join(map(str, st.trace))
+            sig = "epoch/%s" % cname
+            rc = R.const()
+            if kind == "forever":
+                rep.require(r, rc == -1, where, fn.name, sig + ":forever", "FOREVER decodes to %s" % R, sample={"class": cname, "path": path})
+            elif clock == "WALL":
+                if kind == "oor":
+                    rep.ok(r, sig, {"class": cname, "path": path, "outcome": "out-of-range base (not constrained)"})
+                    continue
+                ok = R.lin is not None and lin_eq(R.lin, {"I": -1})
+                rep.require(r, ok, where, fn.name, sig + ":wall", "wall time of class %s decodes to %s instead of -when (path %s)" % (cname, fmt_lin(R.lin), path),
+                            sample={"class": cname, "path": path, "outcome": "-when"})
+            else:
+                exp = {("N", "_dispatch_get_nanoseconds"): 1, ("N", "_dispatch_timeout"): 1}
+                ok = R.lin is not None and lin_eq(R.lin, exp)
+                rep.require(r, ok, where, fn.name, sig + ":relative",
+                            "%s time (class %s) is decoded as %s instead of wall-now + _dispatch_timeout(when) (path %s): it is taken for a wall-clock value, so "
+                            "e.g. dispatch_semaphore_wait with a monotonic deadline - even one already past - sleeps until the year 2262"
+                            % (clock, cname, fmt_lin(R.lin) if R.lin is not None else R, path), sample={"class": cname, "path": path, "outcome": "now+timeout"})
+    return npaths
+
+
 def run(rep, tier="quick", srcdir=None, only=None):
     facts = build.facts_for(UNITS, mode="all", srcdir=srcdir)
     rep.units = UNITS
@@ -301,6 +343,7 @@ def run(rep, tier="quick", srcdir=None, only=None):
     n = run_dispatch_time(rep, prog)
     n += run_walltime(rep, prog)
     n += run_timeout(rep, prog)
+    n += run_epoch(rep, prog)
     rep.extra["paths_enumerated"] = n
     rep.extra["exhaustive"] = True
 
@@ -309,7 +352,7 @@ LEVEL = "other"
 
 MANIFEST = {
     "technique": "path-partitioned interval abstract interpretation of the inlined LLVM IR against the dispatch_time_t encoding spec",
-    "level": "static decision over all 2^64 x 2^64 inputs of dispatch_time / dispatch_walltime / _dispatch_timeout: every feasible "
+    "level": "static decision over all 2^64 x 2^64 inputs of dispatch_time / dispatch_walltime / _dispatch_timeout / _dispatch_time_nanoseconds_since_epoch: every feasible "
              "IR path of every spec input class is shown to be EXACT, SAT_HIGH or SAT_LOW by interval entailment (no sampling, no "
              "solver); this is the closest to a complete decision the property admits statically",
     "note": "trusts clang-14 -O0 codegen + LLVM sroa/mem2reg/simplifycfg, assumes clock reads in [2, 2^62-2], normalised timespecs, "
